@@ -61,6 +61,20 @@ Proof. exact pipeline_forward_eq_total. Qed.
 Theorem C10_invariant : forall c g h, 1 <= g -> phist_wf h -> PInv (prun c g h).
 Proof. exact pipeline_inv. Qed.
 
+(* the distributor always holds at least the sum of its epochs' available amounts, also when anybody sends the
+   distribution asset straight to it (PStray); such a transfer changes its balance and nothing else *)
+Theorem C10_distributor_solvent : forall c g h, 1 <= g -> phist_wf h ->
+  sum_avail (d_epochs (p_dist (prun c g h))) <= d_bal (p_dist (prun c g h)).
+Proof. exact pipeline_distributor_solvent. Qed.
+
+Theorem C10_plain_transfer_frame : forall c now s x s',
+  pstep c now s (PStray x) = Ok s' ->
+  0 < x /\ p_bal s' = p_bal s /\ p_dao s' = p_dao s /\ p_history s' = p_history s /\
+  p_active s' = p_active s /\ p_rate s' = p_rate s /\ p_dao_set s' = p_dao_set s /\
+  d_bal (p_dist s') = d_bal (p_dist s) + x /\ d_epochs (p_dist s') = d_epochs (p_dist s) /\
+  d_cursor (p_dist s') = d_cursor (p_dist s) /\ d_grace (p_dist s') = d_grace (p_dist s).
+Proof. exact pipeline_plain_transfer_frame. Qed.
+
 Theorem C10_only_distributor_forwards : forall c now s,
   pstep c now s PForwardDirect = Err E_UNAUTH /\ phstep c s (now, PForwardDirect) = s.
 Proof. exact pipeline_only_distributor_forwards. Qed.
@@ -88,6 +102,7 @@ Definition nv_h : list pevent :=
     (T0, PConfig true None (Some DEC) None);                                 (* 100 %: rejected *)
     (T0, PCollect true [(3, 7777)]);
     (T0, PForwardDirect);
+    (T0, PStray 1000);                                                       (* a plain transfer to the distributor *)
     (T0, PNewEpoch nv_fd1);
     (T0 + 5, PNewEpoch nv_fd1);                                              (* early *)
     (T0 + DAY, PNewEpoch (mkFeeds true [] [(2, 600)] [] [(2, HopFails)]));   (* 999+600 > 1000, the hop fails: all aborts *)
@@ -97,7 +112,7 @@ Example C10_nonvacuous :
   phist_wf nv_h /\
   (let s := prun nv_c 1 nv_h in
    (zget 0 (p_bal s), zget 1 (p_bal s), zget 2 (p_bal s), zget 3 (p_bal s)) = (0, 0, 999, 7777) /\
-   p_dao s = 492 /\ d_bal (p_dist s) = 48718 /\ p_history s = [(1, 492)] /\
+   p_dao s = 492 /\ d_bal (p_dist s) = 49718 /\ p_history s = [(1, 492)] /\
    map (fun e => (de_id e, de_total e, de_avail e)) (d_epochs (p_dist s)) = [(2, Some 48718, Some 48718); (1, Some 48708, None)]).
 Proof.
   split.
@@ -109,6 +124,8 @@ Print Assumptions C10_new_epoch_pipeline.
 Print Assumptions C10_conservation.
 Print Assumptions C10_forward_eq_total.
 Print Assumptions C10_invariant.
+Print Assumptions C10_distributor_solvent.
+Print Assumptions C10_plain_transfer_frame.
 Print Assumptions C10_only_distributor_forwards.
 Print Assumptions C10_failed_step_frame.
 Print Assumptions C10_collect_aggregate_frame.
